@@ -526,6 +526,11 @@ class SegmentWriter(IndexWriter):
         info = ix._read_toc()
         self.generation = info.generation + 1
         self.schema = info.schema
+        # The schema object can be shared with the Index object, so remember
+        # its fields to be able to undo add_field()/remove_field() in cancel()
+        self._schema_state = (dict(self.schema._fields),
+                              dict(self.schema._subfields),
+                              dict(self.schema._dyn_fields))
         self.segments = info.segments
         self.docnum = self.docbase = docbase
         self._setup_doc_offsets()
@@ -948,6 +953,14 @@ class SegmentWriter(IndexWriter):
     def cancel(self):
         self._check_state()
         self._close_segment()
+        # Undo schema changes made through this writer (in place: the Index
+        # may hold the same schema object)
+        fields, subfields, dyn_fields = self._schema_state
+        for current, saved in ((self.schema._fields, fields),
+                               (self.schema._subfields, subfields),
+                               (self.schema._dyn_fields, dyn_fields)):
+            current.clear()
+            current.update(saved)
         self._finish()
 
 
